@@ -4,7 +4,9 @@ CONSTANTS
   Threads = {1, 2}
   MaxOps = 3
   Kinds = {"w", "c", "b"}
-  Manual = FALSE
+  ManualKs = FALSE
+  ManualDb = FALSE
+  PersistShortcut = FALSE
   MaxFaults = 1
   EnPersistCall = TRUE
   FixPoisonAppend = TRUE
